@@ -269,7 +269,7 @@ def run_plane(ctx, p):
 def run_pred(ctx, p):
     sm = S()
     which = p['which']
-    sig = dict(api='Plucker.' + which, want=bool(p['want']))
+    sig = dict(api='Plucker.' + which, want=bool(p['want']) if 'want' in p else 'per column')
     try:
         if which == 'eq':
             P0, D = np.asarray(p['P'], float), np.asarray(p['D'], float)
@@ -302,6 +302,24 @@ def run_pred(ctx, p):
             L = sm.Plucker.PointDir(p['P'], p['D'])
             got = L.contains(np.asarray(p['x'], float))
             ok = bool(got) == bool(p['want'])
+        elif which == 'contains_tol':
+            # general-position line, points of the line from point(lambda) mixed with points well off the line; the caller
+            # states the tolerance relative to the data magnitude; the 3xN form must answer column by column like N calls
+            P, Q = np.asarray(p['P'], float), np.asarray(p['Q'], float)
+            L = sm.Plucker.PQ(P, Q)
+            lam = np.asarray(p['lam'], float)
+            X = np.asarray(L.point(lam), float).reshape(3, -1)
+            m_ = mag(P, Q, X)
+            onoff = [bool(t) for t in p['on']]
+            u = np.cross(Q - P, np.asarray(p['offdir'], float))
+            u = u / np.linalg.norm(u)
+            X = X + np.column_stack([np.zeros(3) if on else u * p['offdist'] * m_ for on in onoff])
+            tol = 1e-9 * m_
+            arr = [bool(t) for t in L.contains(X, tol=tol)]
+            each = [bool(L.contains(X[:, i].copy(), tol=tol)) for i in range(X.shape[1])]
+            got = (arr, each)
+            ok = arr == onoff and each == onoff
+            p = dict(p, want=onoff)
         elif which == 'plane_contains':
             pl = sm.Plane.PN(p['pt'], p['n'])
             got = pl.contains(np.asarray(p['x'], float))
@@ -313,8 +331,8 @@ def run_pred(ctx, p):
         ctx.bad('predicates', dict(sig, kind='raised', exc=type(e).__name__, where=_where(e)), 'predicate %s raised %r' % (which, e))
         return
     ctx.judge('predicates', ok, dict(sig, kind='predicate_wrong'), lambda: 'predicate %s returned %r, constructed ground truth is %r: %s' % (which, got, p['want'], core.short(core.J(p), 400)))
-    ctx.cell('pred', which, p['want'], p.get('variant', ''))
-    ctx.nontrivial('pred', which, p['want'], core.short(core.J(p), 300))
+    ctx.cell('pred', which, str(p['want']) if which != 'contains_tol' else 'mixed', p.get('variant', ''))
+    ctx.nontrivial('pred', which, str(p['want']), core.short(core.J(p), 300))
 
 
 RUNNERS = {'line': run_line, 'transform': run_transform, 'pair': run_pair, 'plane': run_plane, 'pred': run_pred}
@@ -397,7 +415,7 @@ def run(ctx):
                 continue
             drive(RUNNERS, ctx, 'plane', dict(which=which, P=P, Q=D, pt=point(rng), n=n, asplane=bool(rng.integers(2))))
     for _ in range(ctx.scale(3000, 50000)):
-        which = ['eq', 'parallel', 'intersect', 'contains', 'plane_contains'][rng.integers(5)]
+        which = ['eq', 'parallel', 'intersect', 'contains', 'plane_contains', 'contains_tol'][rng.integers(6)]
         if which == 'eq':
             variant = ['same', 'rescaled', 'reversed', 'displaced'][rng.integers(4)]
             P, D = intvec(rng), intvec(rng)
@@ -423,6 +441,15 @@ def run(ctx):
             else:
                 off = np.cross(D, D2)
                 p = dict(which=which, P=np.zeros(3), D=D, P2=off / np.linalg.norm(off) * float(rng.uniform(0.5, 50)), D2=D2, want=False)
+        elif which == 'contains_tol':
+            P, Q = point(rng), point(rng)
+            off = direction(rng)
+            if np.linalg.norm(P - Q) < 1e-2 * max(1.0, np.linalg.norm(P), np.linalg.norm(Q)) or \
+                    np.linalg.norm(np.cross(Q - P, off)) < 1e-2 * np.linalg.norm(Q - P) * np.linalg.norm(off):
+                continue
+            N = int(rng.integers(2, 8))
+            p = dict(which=which, P=P, Q=Q, lam=rng.uniform(-3, 3, size=N) * np.linalg.norm(Q - P), on=[bool(rng.random() < 0.7) for _ in range(N)],
+                     offdir=off, offdist=float(gen.logu(rng, 1e-3, 1.0)), variant='N=%d' % N)
         elif which == 'contains':
             want = bool(rng.integers(2))
             D = intvec(rng)
